@@ -133,6 +133,18 @@ func WorldSteps() []Step {
 		DutchAuctionParam: &dutch, IsEnglishActivated: false, KeeeperIncentive: d("0.1")}))
 	s = append(s, cfgStep("cfg.aucv2.params", auctionsv2types.AuctionParams{AuctionDurationSeconds: 3600, Step: d("0.1"), WithdrawalFee: d("0.0"), ClosingFee: d("0.0"),
 		MinUsdValueLeft: 100000, BidFactor: d("0.1"), LiquidationPenalty: d("0.1"), AuctionBonus: d("0.0")}))
+	// fractional carry state: stability-fee trackers of vaults and saving-rate trackers of lockers (x/rewards)
+	s = append(s, cfgStep("cfg.rewards.vaultinterest", uint64(AppHarbor)))
+	s = append(s, cfgStep("cfg.rewards.lockerasset", [2]uint64{AppHarbor, A3}))
+	// parameters at their legal extremes, set through the governance path (UpdateGenericParams): lowest values on the
+	// lend app, highest fractions on the harbor app (neither has pairs, so the trading workload is unaffected)
+	s = append(s, cfgStep("cfg.liquidity.params", liqParamsArg{App: AppLend,
+		Keys: []string{"BatchSize", "MinInitialPoolCoinSupply", "PairCreationFee", "PoolCreationFee", "MinInitialDepositAmount", "MaxPriceLimitRatio", "MaxOrderLifespan",
+			"SwapFeeRate", "WithdrawFeeRate", "DepositExtraGas", "WithdrawExtraGas", "OrderExtraGas", "SwapFeeBurnRate", "MaxNumMarketMakingOrderTicks", "MaxNumActivePoolsPerPair"},
+		Values: []string{"1", "1", "", "", "0", "0", "0s", "0", "0", "0", "0", "0", "0", "1", "0"}}))
+	s = append(s, cfgStep("cfg.liquidity.params", liqParamsArg{App: AppHarbor,
+		Keys:   []string{"BatchSize", "MaxPriceLimitRatio", "SwapFeeRate", "WithdrawFeeRate", "SwapFeeBurnRate", "MaxNumMarketMakingOrderTicks", "MaxNumActivePoolsPerPair", "MaxOrderLifespan"},
+		Values: []string{"18446744073709551615", "1000000", "0.999999999999999999", "0.999999999999999999", "0.999999999999999999", "18446744073709551615", "18446744073709551615", "2562047h"}}))
 	s = append(s, cfgStep("cfg.liqv1.whitelist", uint64(AppHarbor))) // V1 liquidation stays reachable through its messages
 	s = append(s, cfgStep("cfg.aucv1.params", bindings.MsgAddAuctionParams{AppID: AppHarbor, AuctionDurationSeconds: 3600, Buffer: d("1.2"), Cusp: d("0.6"), Step: 1,
 		PriceFunctionType: 1, SurplusID: 1, DebtID: 2, DutchID: 3, BidDurationSeconds: 3600}))
